@@ -449,6 +449,40 @@ pub fn evaluate(d: &mut Draw, text: &str, stim: &Stimulus, presample: bool, opts
             failures.push((n, diff));
         }
     }
+    // the artifact is shared by all instances: a second instance that swaps at
+    // call 0 must behave like the first one (no per-artifact run-once state)
+    if failures.is_empty() && points.contains(&0) && total > 0 {
+        match cv.run(stim, 0, presample, false) {
+            Ok(run) => {
+                if let Some(diff) = first_diff(stim, &reference.obs, &run.obs, "never-swapped", "swap@0(second instance)") {
+                    failures.push((0, diff));
+                }
+            }
+            Err(RunErr::Panic(e)) => failures.push((0, format!("panic: {e}"))),
+            Err(RunErr::WaitFailed) => return Outcome::skip("inconclusive: the background compile never finished"),
+            Err(_) => {}
+        }
+        if !failures.is_empty() {
+            let (_, diff) = failures[0].clone();
+            // confirm on one more instance
+            let again = match cv.run(stim, 0, presample, false) {
+                Ok(run) => first_diff(stim, &reference.obs, &run.obs, "never-swapped", "swap@0(third instance)"),
+                _ => None,
+            };
+            if again.is_none() {
+                return Outcome::fail(
+                    "unstable-difference-on-a-later-instance",
+                    format!("a second instance swapping at call 0 differed once but not again: {diff}\n{text}"),
+                    input(json!({"swap_points": [0, 0]})),
+                );
+            }
+            return Outcome::fail(
+                "later-instance-of-the-shared-artifact-differs-at-swap-0",
+                format!("the first instance that swaps at dispatch call 0 equals the never-swapped run, a later instance of the same converted module (same compiled artifact) does not: {diff}\n{text}"),
+                input(json!({"swap_points": [0, 0]})),
+            );
+        }
+    }
     if failures.is_empty() {
         if cv.has_comb {
             classes.push("cc:whole-comb".into());
@@ -626,7 +660,7 @@ pub fn run(ctx: &Ctx) {
                 .unwrap_or_else(|_| Outcome::fail("panic:recorded", "the replay panicked", p.clone()))
         })
     });
-    let n = std::env::var("C33_CASES").ok().and_then(|s| s.parse::<usize>().ok()).unwrap_or(ctx.scale(100, 3000));
+    let n = std::env::var("C33_CASES").ok().and_then(|s| s.parse::<usize>().ok()).unwrap_or(ctx.scale(200, 3000));
     let opts = CaseOpts {
         all_points: !ctx.is_quick(),
         known_per_mille: std::env::var("C33_KNOWN_PER_MILLE").ok().and_then(|s| s.parse().ok()).unwrap_or(60),
